@@ -381,6 +381,9 @@ func errMsg(err error) string { return "" }
 func mapHas(m any, k any) bool { return false }
 func bit(x uint32, j int) bool { return false }
 func isNilFunc(f any) bool { return false }
+func mergoOverride[T any](dst, src T) T { return dst }
+func deepEq[T any](a, b T) bool { return false }
+func forallKeys[M any](m M, f func(k string) bool) bool { return true }
 func dynType(x any) string { return "" }
 `
 
@@ -565,7 +568,7 @@ var ghostNames = map[string]bool{
 	"gvcModLoc": true, "gvcModGhost": true, "gvcModFlag": true, "gvcModMap": true, "gvcModGlob": true,
 	"fsContent": true, "fsExists": true, "fsReadable": true, "fsIsDir": true, "fsMode": true, "fsSize": true, "fsMTime": true,
 	"fsLink": true, "fsIsLink": true, "ufStr": true, "ufInt": true, "ufBool": true,
-	"errIs": true, "errAsSigningFailure": true, "errMsg": true, "mapHas": true, "bit": true, "isNilFunc": true, "dynType": true,
+	"errIs": true, "errAsSigningFailure": true, "errMsg": true, "mapHas": true, "bit": true, "isNilFunc": true, "dynType": true, "mergoOverride": true, "deepEq": true, "forallKeys": true,
 }
 
 func ghostBuiltin(fn *ssa.Function) string {
@@ -725,13 +728,40 @@ func (e *Engine) ghostCall(c *CallCtx, g string, fn *ssa.Function) *Term {
 		}
 		mt := e.tr.typeOfTag(int(tag.IVal.Int64())).Underlying().(*types.Map)
 		has, _, _ := e.mapComps(mt)
-		return Select(Select(e.comp(st, has), m), k)
+		return And(Neq(m, IntT(0)), Select(Select(e.comp(st, has), m), k))
 	case "bit":
 		j := c.args[1]
 		if j.Op != "int" {
 			panic("bit: constant index")
 		}
 		return Eq(bitOf(c.args[0], uint(j.IVal.Int64())), IntT(1))
+	case "mergoOverride":
+		T := fn.Signature.Params().At(0).Type()
+		// maps created by the merge live in the clause's own (private) state so
+		// that a later deepEq of the same clause can read their contents
+		return e.mergeValue(c, T, c.args[0], c.args[1], nil)
+	case "deepEq":
+		T := fn.Signature.Params().At(0).Type()
+		return e.deepEq(st, T, c.args[0], c.args[1])
+	case "forallKeys":
+		mt, ok := fn.Signature.Params().At(0).Type().Underlying().(*types.Map)
+		if !ok {
+			panic("forallKeys: first argument must be a map")
+		}
+		has, _, _ := e.mapComps(mt)
+		if c.args[1].Op != "int" {
+			panic("forallKeys: closure must be a literal")
+		}
+		cl := e.closureOf(c.args[1].IVal.Int64())
+		k := BoundVar(e.tr.sortOf(mt.Key()))
+		var old *State
+		if c.fr != nil {
+			old = c.fr.oldSt
+		}
+		allOld := c.fr != nil && c.fr.oldSt != nil && (c.fr.allOld || c.fr.oldIns[c.instr])
+		body, _, _ := e.execFunction(cl.fn, []*Term{k}, cl.bindings, c.rd.clone(), c.pc, c.fr, "", old, allOld)
+		present := And(Neq(c.args[0], IntT(0)), Select(Select(e.comp(st, has), c.args[0]), k))
+		return Forall([]*Term{k}, Implies(present, body))
 	case "isNilFunc":
 		return Eq(e.payloadTerm(c.args[0]), IntT(0))
 	case "dynType":
